@@ -455,6 +455,7 @@ func init() {
 	E["runtime.SetFinalizer"] = func(fr *frame, args []value) value { return nil }
 	E["runtime.KeepAlive"] = func(fr *frame, args []value) value { return nil }
 	// --- errors
+	E["github.com/pkg/errors.Is"] = func(fr *frame, args []value) value { return externals["errors.Is"](fr, args) }
 	E["errors.Is"] = func(fr *frame, args []value) value {
 		return fr.i.errorsIs(fr, args[0].(iface), args[1].(iface), 0)
 	}
